@@ -1,9 +1,11 @@
 pub mod c01;
+pub mod c03;
 pub mod c07;
 pub mod c08;
 pub mod c09;
 pub mod c13;
 pub mod c14;
+pub mod c17;
 pub mod c20;
 pub mod certfam;
 
@@ -11,11 +13,13 @@ pub fn run(prop: &str, tier: &str, replay: Option<&str>) -> i32 {
     match prop {
         "C02" | "C04" | "C05" => certfam::run(prop, tier, replay),
         "C01" => c01::run(prop, tier, replay),
+        "C03" => c03::run(prop, tier, replay),
         "C07" => c07::run(prop, tier, replay),
         "C08" => c08::run(prop, tier, replay),
         "C09" => c09::run(prop, tier, replay),
         "C13" => c13::run(prop, tier, replay),
         "C14" => c14::run(prop, tier, replay),
+        "C17" => c17::run(prop, tier, replay),
         "C20" => c20::run(prop, tier, replay),
         _ => {
             eprintln!("unknown property {}", prop);
